@@ -726,5 +726,272 @@ theorem chspec (hinj : EncInj enc) (hne : HNonEmpty H) : ∀ fuel, CHSpec H enc 
               obtain ⟨fc, fp⟩ := f1
               subst fc; subst fp
               simp
+
+/-- **Range-proof soundness (strict verifier).**  A proof whose recomputed root is the root hash of `t`
+lists a contiguous run of `t`'s leaves; the run starts at the first leaf when the left path is
+leftmost, is the single last leaf when the left path is rightmost, and ends at the last leaf when
+`treeEnd` is reported. -/
+theorem range_sound (hinj : EncInj enc) (hne : HNonEmpty H) (fx : Fixes) (hfx : fx.strictNodes = true)
+    (p : RangeProof) (t : Tree) (hw : WF t) (te : Bool)
+    (h : computeRootHash H enc fx p = .ok (Tree.hash H enc t, te)) :
+    Collision H ∨ ∃ pre post, pl H t = pre ++ p.leaves ++ post ∧
+      (isLeftmost p.leftPath = true → pre = []) ∧
+      (isRightmost p.leftPath = true → post = [] ∧ p.leaves.length = 1) ∧ (te = true → post = []) := by
+  unfold computeRootHash at h
+  split at h
+  · simp at h
+  · split at h
+    · simp at h
+    · split at h
+      · simp at h
+      · rename_i _ _ hval
+        have hval' : validPath false p.leftPath = true ∧ p.innerNodes.all (validPath true) = true := by
+          by_cases hv : validPath false p.leftPath = true ∧ p.innerNodes.all (validPath true) = true
+          · exact hv
+          · exact absurd ⟨hfx, hv⟩ hval
+        cases hc : computeHash H enc (p.leaves.length + 1) p.leftPath true p.leaves p.innerNodes with
+        | error e => rw [hc] at h; simp at h
+        | ok r =>
+          rw [hc] at h
+          simp only at h
+          split at h
+          · rename_i hd
+            injection h with h
+            simp only [Prod.mk.injEq] at h
+            obtain ⟨hh, hte⟩ := h
+            have hvp : ∀ n ∈ p.leftPath, ValidNode false n := (validPath_iff false _).mp hval'.1
+            have hvi : ∀ q ∈ p.innerNodes, ∀ n ∈ q, ValidNode true n := by
+              intro q hq
+              exact (validPath_iff true q).mp (List.all_eq_true.mp hval'.2 q hq)
+            obtain ⟨_, c, _, a⟩ := chspec H enc hinj hne _ p.leftPath true p.leaves p.innerNodes r hc hvp hvi
+            rcases a t hw hh with cl | ⟨pre, C, post, e1, e2, _, e4, e5, e6⟩
+            · exact Or.inl cl
+            · have : p.leaves = C := by rw [e2, c hd]; simp
+              subst this
+              exact Or.inr ⟨pre, post, e1, e5, e6, fun ht => e4 (by rw [hte]; exact ht)⟩
+          · simp at h
+
+/-- keys strictly increase along the leaves of a well-formed tree -/
+theorem leaves_sorted (t : Tree) (hw : WF t) : t.leaves.Pairwise (fun a b => a.1 < b.1) := by
+  induction hw with
+  | leaf k v ver => simp [Tree.leaves]
+  | inner h s ver nk l r _ _ _ hl hr ihl ihr =>
+    simp only [Tree.leaves]
+    rw [List.pairwise_append]
+    exact ⟨ihl, ihr, fun a ha b hb => Bytes.lt_of_lt_of_le (hl a ha) (hr b hb)⟩
+
+theorem pl_sorted (t : Tree) (hw : WF t) : (pl H t).Pairwise (fun a b => a.key < b.key) := by
+  unfold pl
+  rw [List.pairwise_map]
+  exact leaves_sorted t hw
+
+theorem searchLeaves_le (leaves : List PLeaf) (key : Bytes) : ∀ fuel i j, i ≤ j → i ≤ searchLeaves leaves key fuel i j := by
+  intro fuel
+  induction fuel with
+  | zero => intro i j _; simp [searchLeaves]
+  | succ f ih =>
+    intro i j hij
+    simp only [searchLeaves]
+    split
+    · split
+      · exact ih i _ (by omega)
+      · exact Nat.le_trans (by omega) (ih ((i + j) / 2 + 1) j (by omega))
+    · exact Nat.le_refl _
+
+/-- **value_sound (strict verifier)**: an accepted existence proof for `(key, value)` against the root
+hash of `t` means `t` stores `value` under `key` — or exhibits a hash collision. -/
+theorem value_sound' (hinj : EncInj enc) (hne : HNonEmpty H) (fx : Fixes) (hfx : fx.strictNodes = true)
+    (p : RangeProof) (t : Tree) (hw : WF t) (key value : Bytes)
+    (h : valueOpRun H enc fx (some p) key [value] = .ok [Tree.hash H enc t]) :
+    (∃ ver, (key, value, ver) ∈ t.leaves) ∨ Collision H := by
+  simp only [valueOpRun] at h
+  cases hc : computeRootHash H enc fx p with
+  | error e => rw [hc] at h; simp at h
+  | ok rt =>
+    obtain ⟨root, te⟩ := rt
+    rw [hc] at h
+    simp only at h
+    split at h
+    · rename_i hvi
+      injection h with h
+      simp only [List.cons.injEq, and_true] at h
+      subst h
+      rcases range_sound H enc hinj hne fx hfx p t hw te hc with cl | ⟨pre, post, e1, _⟩
+      · exact Or.inr cl
+      · simp only [verifyItem] at hvi
+        split at hvi
+        · simp at hvi
+        · rename_i l hl
+          simp only [Bool.and_eq_true, decide_eq_true_eq] at hvi
+          have hmem : l ∈ pl H t := by
+            rw [e1]; simp [List.mem_of_getElem? hl]
+          simp only [pl, List.mem_map] at hmem
+          obtain ⟨e, he, hel⟩ := hmem
+          obtain ⟨k, v, ver⟩ := e
+          simp only [pleafOf] at hel
+          subst hel
+          simp only at hvi
+          obtain ⟨hk, hv⟩ := hvi
+          subst hk
+          rcases H_inj_or_collision H hv with ev | cl
+          · subst ev; exact Or.inl ⟨ver, he⟩
+          · exact Or.inr cl
+    · simp at h
+
+theorem absenceLoop_true (key : Bytes) : ∀ rest : List PLeaf, absenceLoop key rest = some true →
+    ∃ a l b, rest = a ++ l :: b ∧ key < l.key ∧ ∀ x ∈ a, x.key < key := by
+  intro rest
+  induction rest with
+  | nil => simp [absenceLoop]
+  | cons x xs ih =>
+    intro h
+    simp only [absenceLoop] at h
+    split at h
+    · rename_i hlt; exact ⟨[], x, xs, rfl, hlt, by simp⟩
+    · split at h
+      · simp at h
+      · rename_i h1 h2
+        obtain ⟨a, l, b, e, hl, ha⟩ := ih h
+        refine ⟨x :: a, l, b, by simp [e], hl, ?_⟩
+        intro y hy
+        simp only [List.mem_cons] at hy
+        rcases hy with rfl | hy
+        · rcases Bytes.lt_tri key y.key with c | c | c
+          · exact absurd c h1
+          · exact absurd c h2
+          · exact c
+        · exact ha y hy
+
+theorem absenceLoop_none (key : Bytes) : ∀ rest : List PLeaf, absenceLoop key rest = none →
+    ∀ x ∈ rest, x.key < key := by
+  intro rest
+  induction rest with
+  | nil => simp
+  | cons x xs ih =>
+    intro h
+    simp only [absenceLoop] at h
+    split at h
+    · simp at h
+    · split at h
+      · simp at h
+      · rename_i h1 h2
+        intro y hy
+        simp only [List.mem_cons] at hy
+        rcases hy with rfl | hy
+        · rcases Bytes.lt_tri key y.key with c | c | c
+          · exact absurd c h1
+          · exact absurd c h2
+          · exact c
+        · exact ih h y hy
+
+/-- **absence_sound (strict verifier)**: an accepted absence proof for `key` against the root hash of
+`t` means no leaf of `t` has that key — or exhibits a hash collision. -/
+theorem absence_sound' (hinj : EncInj enc) (hne : HNonEmpty H) (fx : Fixes) (hfx : fx.strictNodes = true)
+    (p : RangeProof) (t : Tree) (hw : WF t) (key : Bytes)
+    (h : absenceOpRun H enc fx (some p) key [] = .ok [Tree.hash H enc t]) :
+    (∀ e ∈ t.leaves, e.1 ≠ key) ∨ Collision H := by
+  simp only [absenceOpRun] at h
+  cases hc : computeRootHash H enc fx p with
+  | error e => rw [hc] at h; simp at h
+  | ok rt =>
+    obtain ⟨root, te⟩ := rt
+    rw [hc] at h
+    simp only at h
+    split at h
+    · rename_i hva
+      injection h with h
+      simp only [List.cons.injEq, and_true] at h
+      subst h
+      rcases range_sound H enc hinj hne fx hfx p t hw te hc with cl | ⟨pre, post, e1, e2, e3, e4⟩
+      · exact Or.inr cl
+      · left
+        have hsort := pl_sorted H t hw
+        -- it suffices to show that no proof-leaf of the tree carries the key
+        suffices hx : ∀ x ∈ pl H t, x.key ≠ key by
+          intro e he
+          exact hx (pleafOf H e) (by simp only [pl]; exact List.mem_map_of_mem he)
+        rw [e1] at hsort ⊢
+        simp only [verifyAbsence] at hva
+        cases hlv : p.leaves with
+        | nil => rw [hlv] at hva; simp at hva
+        | cons l0 rest =>
+          rw [hlv] at hva hsort e3
+          simp only at hva
+          rw [List.pairwise_append, List.pairwise_append] at hsort
+          obtain ⟨⟨hpre, hseg, hps⟩, hpost, hpp⟩ := hsort
+          have hseg' := List.pairwise_cons.mp hseg
+          split at hva
+          · -- key below the first proof leaf, which is the first leaf of the tree
+            rename_i hlt
+            have hp0 : pre = [] := e2 hva
+            subst hp0
+            intro x hx
+            simp only [List.nil_append, List.mem_append, List.mem_cons] at hx
+            have hge : l0.key ≤ x.key := by
+              rcases hx with (rfl | hx) | hx
+              · exact Bytes.le_refl _
+              · exact Bytes.le_of_lt (hseg'.1 x hx)
+              · exact Bytes.le_of_lt (hpp l0 (by simp) x hx)
+            exact fun e => Bytes.lt_irrefl key (by rw [e] at hge; exact Bytes.lt_of_lt_of_le hlt hge)
+          · rename_i hnlt
+            split at hva
+            · simp at hva
+            · rename_i hneq
+              have hgt : l0.key < key := by
+                rcases Bytes.lt_tri key l0.key with c | c | c
+                · exact absurd c hnlt
+                · exact absurd c hneq
+                · exact c
+              have hpre_lt : ∀ x ∈ pre, x.key < key := fun x hx =>
+                Bytes.lt_trans (hps x hx l0 (by simp)) hgt
+              -- the two shortcuts: the first proof leaf is the last leaf of the tree
+              have hlast : isRightmost p.leftPath = true → ∀ x ∈ pre ++ (l0 :: rest) ++ post, x.key ≠ key := by
+                intro hr
+                obtain ⟨hp, hlen⟩ := e3 hr
+                have hrest : rest = [] := by simpa using hlen
+                subst hp; subst hrest
+                intro x hx
+                simp only [List.append_nil, List.mem_append, List.mem_cons, List.not_mem_nil, or_false] at hx
+                rcases hx with hx | rfl
+                · exact Bytes.ne_of_lt (hpre_lt x hx)
+                · exact Bytes.ne_of_lt hgt
+              split at hva
+              · rename_i hnil; exact hlast (by rw [hnil]; rfl)
+              · split at hva
+                · rename_i hrm; exact hlast hrm
+                · cases hal : absenceLoop key rest with
+                  | some b =>
+                    rw [hal] at hva
+                    simp only at hva
+                    subst hva
+                    obtain ⟨a, l, b, er, hl, ha⟩ := absenceLoop_true key rest hal
+                    subst er
+                    intro x hx
+                    simp only [List.mem_append, List.mem_cons] at hx
+                    have hrest' := hseg'.2
+                    rw [List.pairwise_append] at hrest'
+                    obtain ⟨_, hlb, hab⟩ := hrest'
+                    have hlb' := List.pairwise_cons.mp hlb
+                    rcases hx with (hx | rfl | hx | rfl | hx) | hx
+                    · exact Bytes.ne_of_lt (hpre_lt x hx)
+                    · exact Bytes.ne_of_lt hgt
+                    · exact Bytes.ne_of_lt (ha x hx)
+                    · exact fun e => Bytes.lt_irrefl key (by rw [e] at hl; exact hl)
+                    · exact fun e => Bytes.lt_irrefl key (by have := Bytes.lt_trans hl (hlb'.1 x hx); rw [e] at this; exact this)
+                    · have : l.key < x.key := hpp l (by simp) x hx
+                      exact fun e => Bytes.lt_irrefl key (by have := Bytes.lt_trans hl this; rw [e] at this; exact this)
+                  | none =>
+                    rw [hal] at hva
+                    simp only at hva
+                    have hp := e4 hva
+                    subst hp
+                    have hr := absenceLoop_none key rest hal
+                    intro x hx
+                    simp only [List.append_nil, List.mem_append, List.mem_cons] at hx
+                    rcases hx with hx | rfl | hx
+                    · exact Bytes.ne_of_lt (hpre_lt x hx)
+                    · exact Bytes.ne_of_lt hgt
+                    · exact Bytes.ne_of_lt (hr x hx)
+    · simp at h
 end
 end IavlProof
